@@ -378,7 +378,16 @@ fn conclude<M: Lay>(sub: &mut Sub, cfg: &Config, idx: u64, api: &str, inputs: &d
         Some((what, detail)) => {
             let v = violation(PROP, sub, api, &ty::<M>(), "wrong_value", what, format!("{}; matrix (rows) = {:?}; {}", inputs(), m, detail), cfg.case_seed(), idx);
             sub.violated(v);
+            count_conclusive(sub, hash, nontrivial);
         }
+    }
+}
+
+/// a violated case is conclusive too: it counts towards "distinct non-trivial conclusive cases"
+fn count_conclusive(sub: &mut Sub, hash: u64, nontrivial: bool) {
+    if nontrivial {
+        sub.nontrivial += 1;
+        sub.distinct.insert(hash);
     }
 }
 
@@ -510,6 +519,7 @@ fn conclude_agreement<M: Lay>(sub: &mut Sub, cfg: &Config, idx: u64, api: &str, 
             idx,
         );
         sub.violated(v);
+        count_conclusive(sub, hash, nontrivial);
     }
 }
 
